@@ -81,6 +81,11 @@ def redact_claims(claims: Mapping[str, object]) -> dict[str, object]:
     this token?" is a question worth answering from an audit log; "what was
     it?" is not.
 
+    Claims are JSON-like, so the walk is recursive: a sensitive name nested
+    inside an object (``{"user": {"email": ...}}``) or inside a list of
+    objects is redacted exactly as it would be at the top level, and a
+    sensitive key hides its whole value whatever that value's shape.
+
     Args:
         claims: The authenticated principal's claims.
 
@@ -88,7 +93,16 @@ def redact_claims(claims: Mapping[str, object]) -> dict[str, object]:
         A new dict with the same keys, sensitive values replaced.
 
     """
-    return {k: (REDACTED if _DEFAULT_CLAIM_REDACT_RE.search(k) else v) for k, v in claims.items()}
+    return {k: (REDACTED if _DEFAULT_CLAIM_REDACT_RE.search(k) else _redact_nested(v)) for k, v in claims.items()}
+
+
+def _redact_nested(value: object) -> object:
+    """Apply :func:`redact_claims` to every object nested inside *value*."""
+    if isinstance(value, Mapping):
+        return redact_claims(value)
+    if isinstance(value, (list, tuple)):
+        return [_redact_nested(item) for item in value]
+    return value
 
 
 def no_redaction(claims: Mapping[str, object]) -> dict[str, object]:
